@@ -4,12 +4,12 @@ ID=$1; D=/tmp/seed_$ID; R=$D/repo
 export CARGO_NET_OFFLINE=true CARGO_TARGET_DIR=$D/target RUST_BACKTRACE=0
 cd $R || exit 2
 git checkout -q -- . ; git clean -fdq
-mkdir -p $R/src/cwe_checker_lib/tests; sh $D/out/run.sh > $D/demo_clean.log 2>&1; demo_clean=$?
+mkdir -p $R/src/cwe_checker_lib/tests; bash $D/out/run.sh > $D/demo_clean.log 2>&1; demo_clean=$?
 git checkout -q -- . ; git clean -fdq
 if ! git apply $D/out/patch.diff 2> $D/apply.log; then echo "{\"id\":\"$ID\",\"error\":\"patch does not apply\"}" > $D/confirm.json; exit 1; fi
 cargo test --workspace --no-fail-fast --offline > $D/suite.log 2>&1; suite_rc=$?
 passed=$(grep -E "^test result: ok. 311 passed; 0 failed" $D/suite.log | wc -l)
-mkdir -p $R/src/cwe_checker_lib/tests; sh $D/out/run.sh > $D/demo_patched.log 2>&1; demo_patched=$?
+mkdir -p $R/src/cwe_checker_lib/tests; bash $D/out/run.sh > $D/demo_patched.log 2>&1; demo_patched=$?
 git checkout -q -- . ; git clean -fdq
 rm -rf $D/target
 echo "{\"id\":\"$ID\",\"demo_clean_rc\":$demo_clean,\"suite_rc\":$suite_rc,\"suite_311_passed\":$passed,\"demo_patched_rc\":$demo_patched}" > $D/confirm.json
